@@ -128,4 +128,12 @@ CHECKS = {
         assumptions=["the harness binary links no other decoder registering the webp format (x/image/webp is vendored without its init)"],
         tests=[dict(name="TestC16", quick=6400, thorough=150000)],
     ),
+    "C12": dict(
+        level="exploration",
+        rule="rapid draws pictures sized to engage each parallel site (lossy: >=4 macroblock rows; lossless: >50,000 px for the hash chain and tile-parallel predictor/cross-colour/histogram code, >=100,000 px for the parallel inverse cross-colour and ARGB conversion in the decoder; small pictures too) x lossy/lossless options; for GOMAXPROCS drawn from {1,2,3,4,5,6,7,8,12,16,32} (always including 1) Encode bytes (from a flushed-pool state) and Decode pixels must be equal for all values. "
+             "On a difference the verif-tagged Workers hook re-runs with single sites pinned to one worker to attribute it to a call site (known findings are keyed by site). "
+             "Non-trivial: at least one parallel site saw more than one worker (hook); distinct = (codec, sites engaged, Method, size class).",
+        assumptions=["runtime.GOMAXPROCS(n) inside one process stands for a process started with that setting", "pool state normalised before each compared encode"],
+        tests=[dict(name="TestC12", quick=480, thorough=6000)],
+    ),
 }
